@@ -202,6 +202,7 @@ func C01(p *an.Prog, r *an.Report) {
 	c01DistinctElements(p, r, "C01.R9")
 	c01NoTruncatingCopy(p, r)
 	c01NoUnreadSkip(p, r, "C01.R11")
+	c11OneStringReader(p, r, "C01.R12") // mapping strings come from the one string reader (same rule as C11.M7)
 	c01Block(p, r, "C01.R5")
 	c11Threshold(p, r) // R6 (same rule as C11.M5)
 }
@@ -305,7 +306,11 @@ func directInputSteps(parser *ssa.Function, posOf map[string]string) int {
 			chains = append(chains, ch)
 		}
 	}
-	return directInputStepsIn(parser, 0, chains, 0)
+	n := directInputStepsIn(parser, 0, chains, 0)
+	if os.Getenv("C01DIS") != "" {
+		fmt.Fprintf(os.Stderr, "DIS %s chains=%v -> %d\n", parser.Name(), chains, n)
+	}
+	return n
 }
 
 // inputAnchored: v is the input itself or a window of it (a slice of a slice ... of the input), as
@@ -335,40 +340,49 @@ func directInputStepsIn(fn *ssa.Function, input int, chains [][]int, depth int) 
 			n++
 		}
 	}
-	seen := map[int]bool{}
-	count := 0
-	var only *ssa.Call
-	onlyArg := -1
+	// group the chains by the step of this function they pass through
+	groups := map[int][][]int{}
+	var order []int
 	for _, ch := range chains {
-		first := ch[0]
-		if seen[first] {
-			continue
+		if _, ok := groups[ch[0]]; !ok {
+			order = append(order, ch[0])
 		}
-		seen[first] = true
-		if c, ok := idx[first].(*ssa.Call); ok {
-			for ai, a := range c.Call.Args {
-				if inputAnchored(a, fn.Params[input], 0) {
-					count++
-					only, onlyArg = c, ai
-					break
-				}
-			}
+		if len(ch) > 1 {
+			groups[ch[0]] = append(groups[ch[0]], ch[1:])
+		} else {
+			groups[ch[0]] = append(groups[ch[0]], nil)[:len(groups[ch[0]])]
 		}
 	}
-	if len(seen) == 1 && count == 1 {
-		if callee := only.Call.StaticCallee(); callee != nil && an.InLib(callee) && len(callee.Blocks) > 0 {
-			var sub [][]int
-			for _, ch := range chains {
-				if len(ch) > 1 {
-					sub = append(sub, ch[1:])
-				}
-			}
-			if len(sub) > 0 {
-				if m := directInputStepsIn(callee, onlyArg, sub, depth+1); m > count {
-					return m
-				}
+	count := 0
+	for _, first := range order {
+		c, ok := idx[first].(*ssa.Call)
+		if !ok {
+			continue
+		}
+		// parsing steps are library functions; a decoder of the standard library applied to a
+		// window (binary.BigEndian.Uint32(data[0:4])) is part of the step it occurs in
+		if callee := c.Call.StaticCallee(); callee == nil || !an.InLib(callee) {
+			continue
+		}
+		arg := -1
+		for ai, a := range c.Call.Args {
+			if inputAnchored(a, fn.Params[input], 0) {
+				arg = ai
+				break
 			}
 		}
+		if arg < 0 {
+			continue
+		}
+		// a step handed the input counts once, or as many times as the helper behind it makes
+		// input-anchored steps of its own
+		steps := 1
+		if callee := c.Call.StaticCallee(); callee != nil && an.InLib(callee) && len(callee.Blocks) > 0 && len(groups[first]) > 0 {
+			if m := directInputStepsIn(callee, arg, groups[first], depth+1); m > steps {
+				steps = m
+			}
+		}
+		count += steps
 	}
 	return count
 }
@@ -460,6 +474,23 @@ func kacAtom(p *an.Prog, callers map[*ssa.Function][]*ssa.Call) func(ssa.Value) 
 						}
 					}
 					return enc
+				}
+			}
+		case *ssa.Field:
+			// a field of an immutable carrier struct built by a library function (e.g. a layout
+			// record holding the key sizes)
+			if a := an.StructFieldAffine(x.X, x.Field, atom, callers, 0); a.OK {
+				return a.Encode()
+			}
+		case *ssa.UnOp:
+			// the same, for a carrier kept in a local variable
+			if x.Op == token.MUL {
+				if fa, ok := x.X.(*ssa.FieldAddr); ok {
+					if al, ok := fa.X.(*ssa.Alloc); ok {
+						if a := an.StructFieldOfAlloc(al, fa.Field, atom, callers, 0); a.OK {
+							return a.Encode()
+						}
+					}
 				}
 			}
 		case *ssa.Alloc, *ssa.MakeSlice:
